@@ -55,7 +55,8 @@ impl<H, E> SliceWithHeader<H, E> {
 
 pub struct SliceWithHeaderPtrMeta;
 
-impl<H, E, M> PtrMeta<SliceWithHeader<H, E>, M> for SliceWithHeaderPtrMeta {
+// SAFETY: the conversions only drop / re-attach the slice length, which is the stored metadata.
+unsafe impl<H, E, M> PtrMeta<SliceWithHeader<H, E>, M> for SliceWithHeaderPtrMeta {
     type PtrMetadata = usize;
     type Thin = H;
 
@@ -269,7 +270,8 @@ impl<'gc, E: 'static + Copy> GcSlice<'gc, E> {
 
 pub struct SlicePtrMeta;
 
-impl<E, M> PtrMeta<[E], M> for SlicePtrMeta {
+// SAFETY: the conversions only drop / re-attach the slice length, which is the stored metadata.
+unsafe impl<E, M> PtrMeta<[E], M> for SlicePtrMeta {
     type PtrMetadata = usize;
     type Thin = ();
 
@@ -366,7 +368,8 @@ impl<'gc> GcStr<'gc> {
 
 pub struct StrPtrMeta;
 
-impl<M> PtrMeta<str, M> for StrPtrMeta {
+// SAFETY: the conversions only drop / re-attach the byte length, which is the stored metadata.
+unsafe impl<M> PtrMeta<str, M> for StrPtrMeta {
     type PtrMetadata = usize;
     type Thin = ();
 
